@@ -432,6 +432,19 @@ def nested(variant, tmp):
         'int32_arr': np.array([1, -2, 3], dtype=np.int32),
         'float32_arr': np.array([0.5, 0.25], dtype=np.float32),
         'arr3d': np.arange(24.0).reshape(2, 3, 4),
+        # every numeric dtype family in single and double width, 0-d to 2-d
+        'complex64_arr': np.array([[1 + 2j, 0.5j], [np.nan, -3]],
+                                  dtype=np.complex64),
+        'complex64_1d': np.array([0.25 - 1j, 2], dtype=np.complex64),
+        'complex64_0d': np.array(1.5 + 0.5j, dtype=np.complex64),
+        'float32_2d': (np.arange(6, dtype=np.float32)/4).reshape(3, 2),
+        'float32_0d': np.array(0.75, dtype=np.float32),
+        'int16_arr': np.array([[1, -2], [300, 4]], dtype=np.int16),
+        'uint8_arr': np.array([0, 7, 255], dtype=np.uint8),
+        'f_order_arr': np.asfortranarray(np.arange(6.0).reshape(2, 3)),
+        'inf_arr': np.array([np.inf, -np.inf, 1.0]),
+        'complex_inf': np.array([complex(1.0, np.inf), complex(-np.inf, 0.0),
+                                 complex(2.0, -np.inf)]),
     }
     if variant == 'flat':
         return dict(leaves)
